@@ -1288,4 +1288,8 @@ def replay(ctx, payload):
 
 
 def run(ctx):
-    return [stream_chemist(ctx), stream_lowrank(ctx), stream_integrals(ctx), stream_rdm(ctx), stream_robust(ctx)]
+    # freeze_orbitals is anchored by C16 and C17 alike: its Model correspondence and Spec oracle
+    # (unsorted / repeated orbital lists, prune, signs) live in harness/c16.py and run here as well
+    import c16
+    return [stream_chemist(ctx), stream_lowrank(ctx), stream_integrals(ctx), stream_rdm(ctx), stream_robust(ctx),
+            c16.stream_freeze(ctx)]
